@@ -174,6 +174,66 @@ func cborEntries(b []byte) ([][]byte, error) {
 	return out, nil
 }
 
+// largeTokenStreams: "however the stream is chunked" has no size attached: tokens of exactly 2^16 and 2^20 bytes, a little
+// more, and 4 MiB read from a stream give what they give from memory - the token and its CID - and the same bytes
+// followed by others are refused from a stream as they are from memory.
+func largeTokenStreams(rep *Report) error {
+	w := newWorld(envSeed(), []string{"ed25519"})
+	iss, err := w.principal("I")
+	if err != nil {
+		return err
+	}
+	sealOf := func(pad int) ([]byte, cid.Cid, error) {
+		d, err := delegation.Root(iss.id, iss.id, command.Command("/big"), policy.Policy{}, delegation.WithMeta("blob", bytes.Repeat([]byte{0x5a}, pad)), delegation.WithNonce([]byte("0123456789ab")))
+		if err != nil {
+			return nil, cid.Undef, err
+		}
+		return d.ToSealed(iss.priv)
+	}
+	for _, target := range []int{1 << 16, 1<<20 - 1, 1 << 20, 1<<20 + 1, 1<<20 + 4096, 4 << 20} {
+		pad := target - 400
+		var sealed []byte
+		var id cid.Cid
+		for try := 0; try < 6; try++ {
+			if sealed, id, err = sealOf(pad); err != nil {
+				return err
+			}
+			if len(sealed) == target {
+				break
+			}
+			pad += target - len(sealed)
+		}
+		cs := map[string]any{"sealed_bytes": len(sealed), "wanted_bytes": target}
+		rep.Evaluations++
+		if _, bid, err := delegation.FromSealed(sealed); err != nil || bid != id {
+			rep.violation(cs, "unsealed from memory", fmt.Sprint(err), "a large token cannot be unsealed from memory")
+			continue
+		}
+		for _, src := range sourceKinds() {
+			if src.name == "one-byte" && target > 1<<20 {
+				continue // (a one-byte reader over megabytes only costs time)
+			}
+			for api, f := range map[string]func(io.Reader) (cid.Cid, error){
+				"delegation.FromSealedReader": func(r io.Reader) (cid.Cid, error) { _, c, e := delegation.FromSealedReader(r); return c, e },
+				"token.FromSealedReader":      func(r io.Reader) (cid.Cid, error) { _, c, e := token.FromSealedReader(r); return c, e },
+			} {
+				rep.Evaluations++
+				c2 := map[string]any{"sealed_bytes": len(sealed), "api": api, "reader": src.name}
+				if got, err := f(src.mk(sealed)); err != nil {
+					rep.violation(c2, "the token, as from memory", err.Error(), "a token that unseals from memory does not unseal from a stream")
+				} else if got != id {
+					rep.violation(c2, id.String(), got.String(), "stream and memory give different CIDs")
+				}
+				padded := append(append([]byte{}, sealed...), 0x00, 0x01, 0x02)
+				if got, err := f(src.mk(padded)); err == nil {
+					rep.violation(c2, "an error, as from memory", "a token with CID "+got.String(), "sealed bytes followed by others are refused from memory but accepted from a stream")
+				}
+			}
+		}
+	}
+	return nil
+}
+
 // roomWriter accepts room bytes, then refuses (a full disk, a closed connection).
 type roomWriter struct {
 	room, n   int
@@ -602,6 +662,98 @@ func init() {
 								"a container holding tokens of every key algorithm cannot be read back")
 						} else if why := sameSet(rd, all); why != "" {
 							rep.violation(map[string]any{"fmt": f, "b64": b64}, "exactly the tokens that were added", why, "round trip with tokens of every key algorithm")
+						}
+					}
+				}
+			}
+			// how many tokens: the counts around the sizes where a CBOR head grows (23 | 24, 255 | 256), and none at all
+			{
+				one := newWorld(envSeed(), []string{"ed25519"})
+				iss, err := one.principal("I")
+				if err != nil {
+					return err
+				}
+				var many []sealedTok
+				for i := 0; i < 257; i++ {
+					d, err := delegation.Root(iss.id, iss.id, command.Command(fmt.Sprintf("/n/%d", i)), policy.Policy{})
+					if err != nil {
+						return err
+					}
+					b, id, err := d.ToSealed(iss.priv)
+					if err != nil {
+						return err
+					}
+					many = append(many, sealedTok{"dlg", b, id, nil, d, iss})
+				}
+				for _, n := range []int{0, 1, 22, 23, 24, 25, 26, 255, 256, 257} {
+					order := make([]int, n)
+					for i := range order {
+						order[i] = i + 1
+					}
+					for _, f := range []string{"car", "cbor"} {
+						for _, b64 := range []bool{false, true} {
+							for _, wv := range []string{"bytes", "stream"} {
+								rep.Evaluations++
+								cs := map[string]any{"fmt": f, "b64": b64, "writer": wv, "tokens": n}
+								data, err := writeContainer(many, order, f, b64, wv)
+								if err != nil {
+									rep.violation(cs, "written", err.Error(), fmt.Sprintf("writing a container of %d tokens failed", n))
+									continue
+								}
+								rd, err := readContainer(data, f, b64, map[string]string{"bytes": "stream", "stream": "bytes"}[wv], nil)
+								if err != nil {
+									rep.violation(cs, "the tokens that were added", err.Error(), fmt.Sprintf("a container of %d tokens cannot be read back", n))
+									continue
+								}
+								got := 0
+								for id := range rd.GetAllDelegations() {
+									got++
+									_ = id
+								}
+								if got != n {
+									rep.violation(cs, fmt.Sprintf("%d tokens", n), fmt.Sprintf("%d tokens", got), fmt.Sprintf("a container of %d tokens reads back as %d", n, got))
+								}
+							}
+						}
+					}
+				}
+				// an entry that is a correctly signed token FOLLOWED by other bytes (and, in a CAR, labelled with the hash of all of
+				// it) is not a token: reading fails, it is not filed under the CID of something nobody sealed
+				for ti, tail := range [][]byte{{0x00}, {0xf6}, many[5].sealed, bytes.Repeat([]byte{0xff}, 9)} {
+					padded := append(append([]byte{}, many[1].sealed...), tail...)
+					pid := cborCid(padded)
+					for _, f := range []string{"car", "cbor"} {
+						for _, b64 := range []bool{false, true} {
+							rep.Evaluations++
+							cw := container.NewWriter()
+							cw.AddSealed(many[0].id, many[0].sealed)
+							cw.AddSealed(pid, padded)
+							cw.AddSealed(many[2].id, many[2].sealed)
+							var data []byte
+							var err error
+							switch {
+							case f == "car" && !b64:
+								data, err = cw.ToCar()
+							case f == "car":
+								data, err = cw.ToCarBase64()
+							case !b64:
+								data, err = cw.ToCbor()
+							default:
+								data, err = cw.ToCborBase64()
+							}
+							if err != nil {
+								continue
+							}
+							for _, rv := range []string{"bytes", "stream"} {
+								if rd, err := readContainer(data, f, b64, rv, nil); err == nil {
+									n := 0
+									for range rd.GetAllDelegations() {
+										n++
+									}
+									rep.violation(map[string]any{"fmt": f, "b64": b64, "reader": rv, "tail": ti, "tail_bytes": len(tail)}, "an error", fmt.Sprintf("%d tokens", n),
+										"an entry made of a sealed token followed by other bytes was accepted")
+								}
+							}
 						}
 					}
 				}
@@ -1132,6 +1284,9 @@ func init() {
 	replays["stream"] = func(cases []json.RawMessage, rep *Report) error {
 		w := newWorld(envSeed(), fastAlgs)
 		rng := rand.New(rand.NewSource(envSeed()))
+		if err := largeTokenStreams(rep); err != nil {
+			return err
+		}
 		arts := map[string]*streamArtefact{}
 		skipped := 0
 		for _, raw := range cases {
